@@ -91,7 +91,7 @@ def deadline(ctx, fn="calculate_timeout_when", part="all"):
 
 # ------------------------------------------------------------------ fault scripts
 PHASES = ["connect", "before-status", "mid-header", "mid-body", "mid-chunk", "none", "none-chunked-big",
-          "none-late-body", "pool-wait", "send-body"]
+          "none-late-body", "pool-wait", "send-body", "mid-body-after-big-segment"]
 
 
 def fault(ctx, phases=None, kinds=None, cancel=False):
@@ -182,6 +182,12 @@ def fault(ctx, phases=None, kinds=None, cancel=False):
                     c["proto"].data_received(full_cl[:-5])
                 elif stall == "mid-chunk":
                     c["proto"].data_received(full_ch[:-12])
+                elif stall == "mid-body-after-big-segment":
+                    # one read carries many small chunks (several times the high-water mark, so reading is
+                    # paused and resumed more than once while the caller drains it), then the peer goes quiet
+                    # in the middle of the body
+                    many = b"".join(b"5\r\nhello\r\n" for _ in range(8))
+                    c["proto"].data_received(b"HTTP/1.1 200 OK\r\nTransfer-Encoding: chunked\r\n\r\n" + many)
                 elif stall == "none":
                     c["proto"].data_received(full_cl)
                 elif stall == "none-late-body":
